@@ -107,6 +107,12 @@ impl Send {
             return Err(UserError::PeerDisabledServerPush);
         }
 
+        // PUSH_PROMISE may only be sent while the parent can still send
+        // (RFC 9113 section 6.6): not after END_STREAM, a reset or an error.
+        if stream.state.is_send_closed() {
+            return Err(UserError::UnexpectedFrameType);
+        }
+
         tracing::trace!(
             "send_push_promise; frame={:?}; init_window={:?}",
             frame,
